@@ -36,6 +36,36 @@ def r15(ctx):
     # ---- solver call
     calls = [c for c in walk_no_nested(fn) if isinstance(c, ast.Call) and (call_name(c) or "").endswith("linear_sum_assignment")]
     if len(calls) != 1:
+        # the solver may be called in a helper: whatever else it does, the rows of the answer must not be thrown away there
+        for hq, h in sorted(m.functions.items()):
+            if h.module != f.module or h.node is f.node:
+                continue
+            for c in walk_no_nested(h.node):
+                if not (isinstance(c, ast.Call) and (call_name(c) or "").endswith("linear_sum_assignment")):
+                    continue
+                st = c
+                while not isinstance(st, ast.stmt):
+                    st = parent(st)
+                dropped = None
+                if isinstance(st, ast.Assign) and st.value is c and isinstance(st.targets[0], ast.Name):
+                    X = st.targets[0].id
+                    uses = [u for u in walk_no_nested(h.node) if isinstance(u, ast.Name) and u.id == X and isinstance(u.ctx, ast.Load)]
+                    idx = [parent(u).slice.value if isinstance(parent(u), ast.Subscript) and isinstance(parent(u).slice, ast.Constant) else None for u in uses]
+                    if uses and all(i == 1 for i in idx):
+                        dropped = f"only `{X}[1]` of `{norm(st, 60)}` is used"
+                elif isinstance(st, ast.Assign) and st.value is c and isinstance(st.targets[0], ast.Tuple) and len(st.targets[0].elts) == 2 \
+                        and isinstance(st.targets[0].elts[0], ast.Name):
+                    R = st.targets[0].elts[0].id
+                    if not any(isinstance(u, ast.Name) and u.id == R and isinstance(u.ctx, ast.Load) for u in walk_no_nested(h.node)):
+                        dropped = f"`{R}` of `{norm(st, 60)}` is never read"
+                elif isinstance(parent(c), ast.Subscript) and isinstance(parent(c).slice, ast.Constant) and parent(c).slice.value == 1:
+                    dropped = f"`{norm(parent(c), 60)}` keeps the columns only"
+                if dropped:
+                    ctx.violation("R15a", h.file, h.short, st, "solver result kept whole",
+                                  f"{dropped}: the solver's row indices are thrown away; when there are more rows than columns the solver skips "
+                                  f"rows, so the row of each column cannot be recovered from its position and pairs are attributed to the wrong "
+                                  f"elements (the matching is no longer of minimum weight, or not a matching of the given edges)")
+                    return
         raise Inconclusive("min_weight_bipartite_matching: expected exactly one linear_sum_assignment call")
     call = calls[0]
     sv = call
